@@ -63,6 +63,7 @@ fn main() {
         cur_file: String::new(),
         notes: Vec::new(),
         opaque: Vec::new(),
+        req_ignore_assign: Vec::new(),
     };
     let _ = FEATURES.set(spec.cfg_features.clone());
     let mut results = Vec::new();
@@ -71,6 +72,7 @@ fn main() {
         let kind = rq.kind.clone().unwrap_or_else(|| "fn".to_owned());
         let label = rq.name.clone().unwrap_or_else(|| rq.item.clone());
         tr.in_progress.clear();
+        tr.req_ignore_assign = rq.ignore_assign.clone();
         tr.cur_file = "<spec>".into();
         let first_new = tr.out.len();
         let r: R<String> = if !file_errors.is_empty() {
